@@ -348,6 +348,7 @@ def random_worker(case):
 
 def main():
     chk = Check("C04", "exploration")
+    chk.max_inconclusive = 0    # deterministic component-level cases: an undecided chunk makes the whole check inconclusive
     assert_repo()
     from vlib.farm import run_cases
 
